@@ -285,12 +285,18 @@ impl Run {
                     call["t"] = json!(self.w.now_s() + ju(&call, "dt") as u64);
                 }
                 let t = ju(&call, "t") as u64;
-                if t >= self.w.now_s() {
-                    self.w.now_ns = t * 1_000_000_000;
-                    self.w.height += 1;
-                    self.w.tx_index = 0;
+                // block time is u64 nanoseconds: instants beyond year ~2554 cannot be reached
+                match t.checked_mul(1_000_000_000) {
+                    Some(ns) => {
+                        if t >= self.w.now_s() {
+                            self.w.now_ns = ns;
+                            self.w.height += 1;
+                            self.w.tx_index = 0;
+                        }
+                        TxOut { ok: true, ..Default::default() }
+                    }
+                    None => TxOut { ok: false, err: "harness: instant not representable as block time".into(), ..Default::default() },
                 }
-                TxOut { ok: true, ..Default::default() }
             }
             "ibc_ack" => {
                 let seq = ju(&call, "seq") as u64;
